@@ -180,8 +180,9 @@ class EventSeriesClimateNetwork(EventSeries, ClimateNetwork):
                     self.event_analysis_significance(
                         method=self.__method, **ES_significance_kwargs)
 
-                for i in range(self.__N):
-                    for j in range(self.__N):
+                n_nodes = len(measure_matrix)
+                for i in range(n_nodes):
+                    for j in range(n_nodes):
                         if significance_matrix[i][j] < 1.0 - p_value:
                             measure_matrix[i][j] = 0.0
 
